@@ -860,7 +860,7 @@ class _JsonFileHooks:
     def raise_value(self, ex, clsv, lineno):
         from .engine import PyRaise
 
-        if isinstance(clsv, BuiltinV) and clsv.name == "FileNotFoundError":
+        if isinstance(clsv, BuiltinV) and clsv.name == "FileNotFoundError" and ex.frame.module.name == JG_MODULE:
             raise PyRaise("FileNotFoundError", lineno)
         return NotImplemented
 
